@@ -6,6 +6,7 @@ import (
 	"os"
 	"os/exec"
 	"path/filepath"
+	"regexp"
 	"sort"
 	"strings"
 	"sync"
@@ -22,6 +23,8 @@ type Mutant struct {
 	Edits  []Edit `json:"edits"`
 	// Benign marks a behaviour-preserving variant: the check must stay silent on it.
 	Benign bool `json:"benign"`
+	// Patch names a unified diff (relative to /verif) applied instead of Edits: the sub-agent changes kept in /verif/seeded.
+	Patch string `json:"patch"`
 }
 
 type Edit struct {
@@ -65,6 +68,47 @@ func loadMutants(verif, prop string) ([]Mutant, error) {
 		out = append(out, ms...)
 	}
 	return out, nil
+}
+
+var patchFileRe = regexp.MustCompile(`(?m)^\+\+\+ b/(\S+)`)
+
+// patchOverlay applies a unified diff to copies of the touched files (GNU patch in a temp dir) and returns them.
+func patchOverlay(repo, verif, patch string) (map[string]string, error) {
+	b, err := os.ReadFile(filepath.Join(verif, patch))
+	if err != nil {
+		return nil, err
+	}
+	dir, err := os.MkdirTemp("", "verif-patch-*")
+	if err != nil {
+		return nil, err
+	}
+	defer os.RemoveAll(dir)
+	var files []string
+	for _, m := range patchFileRe.FindAllStringSubmatch(string(b), -1) {
+		files = append(files, m[1])
+		src, err := os.ReadFile(filepath.Join(repo, m[1]))
+		if err != nil {
+			return nil, err
+		}
+		dst := filepath.Join(dir, m[1])
+		_ = os.MkdirAll(filepath.Dir(dst), 0o755)
+		if err := os.WriteFile(dst, src, 0o644); err != nil {
+			return nil, err
+		}
+	}
+	cmd := exec.Command("patch", "-p1", "-s", "-d", dir, "-i", filepath.Join(verif, patch))
+	if out, err := cmd.CombinedOutput(); err != nil {
+		return nil, fmt.Errorf("patch does not apply to the current tree: %s", strings.TrimSpace(string(out)))
+	}
+	ov := map[string]string{}
+	for _, f := range files {
+		nb, err := os.ReadFile(filepath.Join(dir, f))
+		if err != nil {
+			return nil, err
+		}
+		ov[f] = string(nb)
+	}
+	return ov, nil
 }
 
 func buildOverlay(repo string, m Mutant) (map[string]string, error) {
@@ -125,7 +169,13 @@ func runSelfTest(self, repo, verif, prop string) ([]MutantResult, bool) {
 			sem <- struct{}{}
 			defer func() { <-sem }()
 			r := MutantResult{ID: m.ID, Rule: m.Rule, Benign: m.Benign}
-			ov, err := buildOverlay(repo, m)
+			var ov map[string]string
+			var err error
+			if m.Patch != "" {
+				ov, err = patchOverlay(repo, verif, m.Patch)
+			} else {
+				ov, err = buildOverlay(repo, m)
+			}
 			if err != nil {
 				r.Detail = err.Error()
 				res[i] = r
@@ -152,7 +202,7 @@ func runSelfTest(self, repo, verif, prop string) ([]MutantResult, bool) {
 			want := "violated " + m.Rule + "|"
 			hit := ""
 			for _, l := range strings.Split(text, "\n") {
-				if strings.Contains(l, want) && strings.Contains(l, m.Expect) {
+				if (strings.Contains(l, want) || strings.Contains(l, "UNDECIDED "+m.Rule+"|")) && strings.Contains(l, m.Expect) {
 					hit = strings.TrimSpace(l)
 					break
 				}
